@@ -1,0 +1,13 @@
+//go:build verif
+
+package ha
+
+import "time"
+
+// Verification seam for property C13, connection-attempt fault layer (runtime-monitoring harness
+// in /verif). Exported wrapper around an unexported field; no behaviour of its own.
+
+// VerifC13cSetSnapshotTimeout sets the deadline performFullSync puts on GET /ha/sessions (field
+// s.config.RequestTimeout) without touching the http.Client NewHASyncer built from the same knob
+// (whose Timeout also bounds the lifetime of the SSE stream). To be called before Start.
+func (s *HASyncer) VerifC13cSetSnapshotTimeout(d time.Duration) { s.config.RequestTimeout = d }
